@@ -4,7 +4,7 @@ From Coq Require Import ZArith Lia.
 From Redo Require Import Base.Bytes Base.BytesProofs Build.Model Build.FsLemmas Build.RecordProofs Build.LocalProofs.
 
 (* names ending in ".redo.tmp" are redo's reserved namespace *)
-Definition reserved (n : name) : bool := is_prefix (rev b_tmp) (rev n).
+Definition reserved (n : name) : bool := is_prefix (rev b_tmp) (rev n) || bytes_eqb n always_name.
 
 (* the database row (if any) does not claim the file as redo's own *)
 Definition row_protects (w : world) (n : name) (r : row) : bool :=
@@ -175,4 +175,312 @@ Lemma from_name_rows_prefix d m :
   exists l, rows (fst (from_name d m)) = rows d ++ l.
 Proof.
   unfold from_name. destruct (find_row (rows d) m 1); cbn; [exists []; now rewrite app_nil_r|eauto].
+Qed.
+
+(* ================================================================ names *)
+(* Rows are only ever appended, and a row never changes its name: the list of
+   row names of a later world extends that of an earlier one. *)
+Definition names (d : db) : list name := map r_name (rows d).
+Definition NAMES (w w' : world) : Prop := exists l, names (dbs w') = names (dbs w) ++ l.
+
+Lemma NAMES_refl w : NAMES w w.
+Proof. exists []. now rewrite app_nil_r. Qed.
+Lemma NAMES_trans w1 w2 w3 : NAMES w1 w2 -> NAMES w2 w3 -> NAMES w1 w3.
+Proof. intros [l1 H1] [l2 H2]. exists (l1 ++ l2). now rewrite H2, H1, app_assoc. Qed.
+
+Lemma find_row_by_names : forall l l' n k, map r_name l = map r_name l' -> find_row l n k = find_row l' n k.
+Proof.
+  induction l as [|r l IH]; intros [|r' l'] n k H; cbn in *; try discriminate; [reflexivity|].
+  inversion H as [[Hn Hl]]. rewrite Hn. destruct (bytes_eqb (r_name r') n); [reflexivity|]. now apply IH.
+Qed.
+
+Lemma find_row_names_prefix : forall l l' x n k i,
+  map r_name l' = map r_name l ++ x -> find_row l n k = Some i -> find_row l' n k = Some i.
+Proof.
+  induction l as [|r l IH]; intros l' x n k i H Hf; cbn in *; [discriminate|].
+  destruct l' as [|r' l']; [discriminate|]. cbn in *. inversion H as [[Hn Hl]]. rewrite Hn.
+  destruct (bytes_eqb (r_name r) n); [exact Hf|]. eapply IH; eauto.
+Qed.
+
+Lemma name_get_row d i : r_name (get_row d i) = nth (i - 1) (names d) [].
+Proof. unfold get_row, names. change (@nil N) with (r_name (empty_row [])). now rewrite map_nth. Qed.
+
+Lemma names_length d : length (names d) = length (rows d).
+Proof. unfold names. apply map_length. Qed.
+
+Lemma NAMES_get_row w w' i :
+  NAMES w w' -> (i - 1 < length (rows (dbs w)))%nat -> r_name (get_row (dbs w') i) = r_name (get_row (dbs w) i).
+Proof.
+  intros [l H] Hi. rewrite !name_get_row, H. apply app_nth1. now rewrite names_length.
+Qed.
+
+Lemma NAMES_length w w' : NAMES w w' -> (length (rows (dbs w)) <= length (rows (dbs w')))%nat.
+Proof. intros [l H]. rewrite <- !names_length, H, app_length. lia. Qed.
+
+Lemma NAMES_find w w' n i :
+  NAMES w w' -> find_row (rows (dbs w)) n 1 = Some i -> find_row (rows (dbs w')) n 1 = Some i.
+Proof. intros [l H] Hf. eapply find_row_names_prefix; eauto. Qed.
+
+Lemma names_set_nth (l : list row) j r' :
+  r_name r' = r_name (nth j l (empty_row [])) -> map r_name (set_nth l j r') = map r_name l.
+Proof.
+  revert j; induction l as [|r l IH]; intros j H; cbn in *; [reflexivity|].
+  destruct j; cbn in *; [now rewrite H|]. f_equal. now apply IH.
+Qed.
+
+Lemma names_put_row d f r' : r_name r' = r_name (get_row d f) -> names (put_row d f r') = names d.
+Proof. intro H. unfold names. rewrite rows_put_row. now apply names_set_nth. Qed.
+
+(* ================================================================ one name at a time *)
+Definition PRES1 (n : name) (w w' : world) : Prop :=
+  protected w n -> fs_get (fs w') n = fs_get (fs w) n /\ protected w' n.
+
+Lemma PRES_all w w' : PRES w w' <-> forall n, PRES1 n w w'.
+Proof. unfold PRES, PRES1. tauto. Qed.
+
+Lemma PRES1_trans n w1 w2 w3 : PRES1 n w1 w2 -> PRES1 n w2 w3 -> PRES1 n w1 w3.
+Proof.
+  intros H12 H23 Hn. destruct (H12 Hn) as [E1 P2]. destruct (H23 P2) as [E2 P3]. split; [congruence|exact P3].
+Qed.
+
+Definition STEP (w w' : world) : Prop := NAMES w w' /\ PRES w w'.
+Lemma STEP_refl w : STEP w w.
+Proof. split; [apply NAMES_refl|apply PRES_refl]. Qed.
+Lemma STEP_trans w1 w2 w3 : STEP w1 w2 -> STEP w2 w3 -> STEP w1 w3.
+Proof. intros [N1 P1] [N2 P2]. split; [eapply NAMES_trans|eapply PRES_trans]; eauto. Qed.
+
+(* a world that differs only outside the file system and the rows *)
+Lemma STEP_rows_same w w' : fs w' = fs w -> rows (dbs w') = rows (dbs w) -> STEP w w'.
+Proof.
+  intros Hfs Hr. split; [|now apply PRES_rows_same].
+  exists []. unfold names. now rewrite Hr, app_nil_r.
+Qed.
+
+(* ---------------------------------------------------------------- writing one row *)
+(* The written row has the name of the row it replaces; if that name is a
+   protected one, the new row must not claim the file. *)
+Lemma PRES1_put_row_slot n w f r' :
+  r_name r' = r_name (get_row (dbs w) f) ->
+  (protected w n -> forall j, find_row (rows (dbs w)) n 1 = Some j -> (j - 1 = f - 1)%nat ->
+     row_protects w n r' = true) ->
+  PRES1 n w (set_db w (put_row (dbs w) f r')).
+Proof.
+  intros Hname Hok Hp. split; [reflexivity|].
+  destruct (Nat.lt_ge_cases (f - 1) (length (rows (dbs w)))) as [Hin|Hout].
+  2:{ eapply protected_rows_same; [| |exact Hp]; [reflexivity|].
+      cbn [dbs set_db]. rewrite rows_put_row. now apply set_nth_beyond. }
+  apply (protected_ext w); [reflexivity| |exact Hp].
+  intros j Hj. cbn [dbs set_db] in *. rewrite rows_put_row in Hj.
+  rewrite find_row_set_nth in Hj by (auto; exact Hname).
+  destruct (Nat.eq_dec (j - 1) (f - 1)) as [E|E].
+  - right. unfold get_row. rewrite rows_put_row, E.
+    assert (G : nth (f - 1) (set_nth (rows (dbs w)) (f - 1) r') (empty_row []) = r') by (apply nth_set_nth; exact Hin).
+    rewrite G. exact (Hok Hp j Hj E).
+  - left. split; [exact Hj|]. unfold get_row. rewrite rows_put_row. apply nth_set_nth_other. lia.
+Qed.
+
+Lemma PRES1_put_row n w f r' :
+  r_name r' = r_name (get_row (dbs w) f) ->
+  (protected w n -> r_name r' = n -> row_protects w n r' = true) ->
+  PRES1 n w (set_db w (put_row (dbs w) f r')).
+Proof.
+  intros Hname Hok. apply PRES1_put_row_slot; [exact Hname|].
+  intros Hp j Hj E. apply Hok; [exact Hp|].
+  rewrite Hname. unfold get_row. rewrite <- E. apply (find_row_name _ _ 1). exact Hj.
+Qed.
+
+Lemma STEP_put_row w f r' :
+  r_name r' = r_name (get_row (dbs w) f) ->
+  (forall n, protected w n -> r_name r' = n -> row_protects w n r' = true) ->
+  STEP w (set_db w (put_row (dbs w) f r')).
+Proof.
+  intros Hname Hok. split.
+  - exists []. cbn [dbs set_db]. rewrite names_put_row by exact Hname. now rewrite app_nil_r.
+  - intros n. apply PRES1_put_row; auto.
+Qed.
+
+Lemma row_protects_safe w n r : safe r -> row_protects w n r = true.
+Proof. unfold row_protects. intros [-> | ->]; cbn; [reflexivity|now rewrite orb_true_r]. Qed.
+
+(* ---------------------------------------------------------------- appending empty rows *)
+Definition EXT (d d' : db) : Prop :=
+  exists l, rows d' = rows d ++ l /\ Forall (fun r => r_gen r = false) l.
+
+Lemma EXT_refl d : EXT d d.
+Proof. exists []. split; [now rewrite app_nil_r|constructor]. Qed.
+Lemma EXT_trans d1 d2 d3 : EXT d1 d2 -> EXT d2 d3 -> EXT d1 d3.
+Proof.
+  intros (l1 & H1 & F1) (l2 & H2 & F2). exists (l1 ++ l2). split; [now rewrite H2, H1, app_assoc|].
+  apply Forall_app. auto.
+Qed.
+Lemma EXT_rows_same d d' : rows d' = rows d -> EXT d d'.
+Proof. intro H. exists []. split; [now rewrite H, app_nil_r|constructor]. Qed.
+Lemma EXT_from_name d m : EXT d (fst (from_name d m)).
+Proof.
+  unfold from_name. destruct (find_row (rows d) m 1); cbn [fst]; [apply EXT_refl|].
+  exists [empty_row m]. split; [reflexivity|]. repeat constructor.
+Qed.
+
+Lemma STEP_ext w d' : EXT (dbs w) d' -> STEP w (set_db w d').
+Proof.
+  intros (l & Hr & Hl). split.
+  - exists (map r_name l). cbn [dbs set_db]. unfold names. now rewrite Hr, map_app.
+  - intros n Hp. split; [reflexivity|].
+    apply (protected_ext w); [reflexivity| |exact Hp].
+    intros j Hj. cbn [dbs set_db] in *. rewrite Hr in Hj.
+    destruct (find_row (rows (dbs w)) n 1) as [i|] eqn:En.
+    + rewrite (find_row_app_some _ _ _ _ _ En) in Hj. inversion Hj; subst j. left. split; [reflexivity|].
+      unfold get_row. rewrite Hr. pose proof (find_row_bounds _ _ _ _ En). rewrite app_nth1 by lia. reflexivity.
+    + right. rewrite find_row_app_none in Hj by assumption.
+      pose proof (find_row_bounds _ _ _ _ Hj) as B.
+      unfold get_row. rewrite Hr. rewrite app_nth2 by lia.
+      apply row_protects_safe. left.
+      rewrite Forall_forall in Hl. apply Hl. apply nth_In. lia.
+Qed.
+
+(* ---------------------------------------------------------------- file system steps *)
+Lemma NAMES_rows_same w w' : rows (dbs w') = rows (dbs w) -> NAMES w w'.
+Proof. intro H. exists []. unfold names. now rewrite H, app_nil_r. Qed.
+
+Lemma PRES1_fs n w w' :
+  fs_get (fs w') n = fs_get (fs w) n -> rows (dbs w') = rows (dbs w) -> PRES1 n w w'.
+Proof.
+  intros Hfs Hr Hp. split; [exact Hfs|].
+  apply (protected_ext w); [exact Hfs| |exact Hp].
+  intros i Hi. left. rewrite Hr in Hi. split; [exact Hi|]. unfold get_row. now rewrite Hr.
+Qed.
+
+Lemma reserved_tmp_of t : reserved (tmp_of t) = true.
+Proof.
+  unfold reserved, tmp_of. rewrite rev_app_distr. generalize (rev b_tmp) as p, (rev t) as q.
+  assert (G : forall p q, is_prefix p (p ++ q) = true).
+  { induction p as [|x p IH]; intros q; cbn; [reflexivity|]. rewrite N.eqb_refl. apply IH. }
+  intros p q. now rewrite G.
+Qed.
+
+Lemma protected_not_always w n : protected w n -> n <> always_name.
+Proof. intros (_ & Hr & _) ->. unfold reserved in Hr. rewrite bytes_eqb_refl, orb_true_r in Hr. discriminate. Qed.
+
+Lemma protected_not_tmp w n t : protected w n -> n <> tmp_of t.
+Proof. intros (_ & Hr & _) ->. rewrite reserved_tmp_of in Hr. discriminate. Qed.
+
+(* ================================================================ is_dirty *)
+(* a dirtiness check touches no file, keeps every row name, and keeps every protection *)
+Definition DSTEP (w w' : world) : Prop :=
+  fs w' = fs w /\ names (dbs w') = names (dbs w) /\ forall n, protected w n -> protected w' n.
+
+Lemma DSTEP_refl w : DSTEP w w.
+Proof. split; [reflexivity|split; [reflexivity|auto]]. Qed.
+Lemma DSTEP_trans w1 w2 w3 : DSTEP w1 w2 -> DSTEP w2 w3 -> DSTEP w1 w3.
+Proof. intros (F1 & N1 & P1) (F2 & N2 & P2). split; [congruence|split; [congruence|auto]]. Qed.
+Lemma DSTEP_STEP w w' : DSTEP w w' -> STEP w w'.
+Proof.
+  intros (F & N & P). split; [exists []; now rewrite N, app_nil_r|].
+  intros n Hn. split; [now rewrite F|auto].
+Qed.
+
+Lemma view_row_name runid r : r_name (view_row runid r) = r_name r.
+Proof. unfold view_row. destruct (bytes_eqb _ _); reflexivity. Qed.
+Lemma view_row_gen runid r : r_gen (view_row runid r) = r_gen r.
+Proof. unfold view_row. destruct (bytes_eqb _ _); reflexivity. Qed.
+Lemma view_row_ovr runid r : r_ovr (view_row runid r) = r_ovr r.
+Proof. unfold view_row. destruct (bytes_eqb _ _); reflexivity. Qed.
+Lemma view_row_stamp runid r : r_stamp (view_row runid r) = r_stamp r.
+Proof. unfold view_row. destruct (bytes_eqb _ _); reflexivity. Qed.
+
+Lemma row_protects_keeps w w' n r r' :
+  read_stamp w' n = read_stamp w n -> keeps r r' -> row_protects w n r = true -> row_protects w' n r' = true.
+Proof. intros Hs (Hg & Ho & Hst) H. unfold row_protects in *. now rewrite Hg, Ho, Hst, Hs. Qed.
+
+Lemma keeps_view runid r : keeps r (view_row runid r).
+Proof. repeat split; [apply view_row_gen|apply view_row_ovr|apply view_row_stamp]. Qed.
+
+Lemma read_stamp_fs w w' n : fs w' = fs w -> read_stamp w' n = read_stamp w n.
+Proof. intro H. unfold read_stamp. now rewrite H. Qed.
+
+Lemma DSTEP_put_row w f r' :
+  r_name r' = r_name (get_row (dbs w) f) ->
+  (forall n, protected w n -> r_name r' = n -> row_protects w n r' = true) ->
+  DSTEP w (set_db w (put_row (dbs w) f r')).
+Proof.
+  intros Hname Hok. split; [reflexivity|split].
+  - cbn [dbs set_db]. now apply names_put_row.
+  - intros n Hn. now apply (PRES1_put_row n w f r' Hname (Hok n)).
+Qed.
+
+(* the row protecting n, if n is protected and row f bears its name *)
+Lemma protected_named_row w n f :
+  protected w n -> (f - 1 < length (rows (dbs w)))%nat -> r_name (get_row (dbs w) f) = n ->
+  exists i, find_row (rows (dbs w)) n 1 = Some i.
+Proof.
+  intros _ Hin Hnm. destruct (find_row (rows (dbs w)) n 1) eqn:E; [eauto|exfalso].
+  (* some row is named n, so the search cannot fail *)
+  assert (G : forall l k, find_row l n k = None -> forall j, (j < length l)%nat -> r_name (nth j l (empty_row [])) <> n).
+  { induction l as [|r l IH]; intros k Hk j Hj; cbn in *; [lia|].
+    destruct (bytes_eqb (r_name r) n) eqn:B; [discriminate|].
+    destruct j; [intro X; rewrite X, bytes_eqb_refl in B; discriminate|]. apply (IH (S k)); [exact Hk|lia]. }
+  exact (G _ _ E _ Hin Hnm).
+Qed.
+
+Lemma walk_deps_DSTEP isd runid f w0 :
+  (forall w1 c1 s v w' c' evs, isd w1 c1 s = Ret (v, w', c', evs) -> DSTEP w1 w') ->
+  forall ds wk c must evs0 v w' c' evs,
+    DSTEP w0 wk ->
+    walk_deps isd runid f (load runid (dbs w0) f) ds wk c must evs0 = Ret (v, w', c', evs) -> DSTEP w0 w'.
+Proof.
+  intros Hisd. set (r := load runid (dbs w0) f).
+  induction ds as [|d ds IHds]; intros wk c must evs0 v w' c' evs Hk H; cbn [walk_deps] in H.
+  - destruct must; [destruct c|]; inversion H; subst; auto.
+    (* the row read at the start is written back with checked_runid set *)
+    destruct Hk as (Fk & Nk & Pk).
+    assert (Hname : r_name (set_checked runid r) = r_name (get_row (dbs wk) f)).
+    { cbn [set_checked upd_row r_name]. unfold r, load. rewrite view_row_name, !name_get_row. now rewrite Nk. }
+    split; [exact Fk|split].
+    + cbn [dbs set_db]. rewrite names_put_row by exact Hname. exact Nk.
+    + intros n Hn0. pose proof (Pk n Hn0) as Hnk.
+      apply (PRES1_put_row_slot n wk f (set_checked runid r) Hname); [|exact Hnk].
+      intros _ j Hj E.
+      assert (Hj0 : find_row (rows (dbs w0)) n 1 = Some j).
+      { rewrite <- Hj. apply find_row_by_names. symmetry. exact Nk. }
+      destruct Hn0 as (_ & _ & Hrow). specialize (Hrow j Hj0).
+      eapply row_protects_keeps; [apply read_stamp_fs; exact Fk| |exact Hrow].
+      unfold r, load, get_row. rewrite E.
+      destruct (keeps_view runid (nth (f - 1) (rows (dbs w0)) (empty_row []))) as (G1 & G2 & G3).
+      repeat split; cbn [set_checked upd_row r_gen r_ovr r_stamp]; assumption.
+  - destruct (d_mode d).
+    + destruct (exists_b wk (r_name (get_row (dbs wk) (d_source d)))).
+      * inversion H; subst. exact Hk.
+      * eapply IHds; [exact Hk|exact H].
+    + destruct (isd wk c (d_source d)) as [[[[v1 w1] c1] e1]|] eqn:E; [|discriminate].
+      pose proof (DSTEP_trans _ _ _ Hk (Hisd _ _ _ _ _ _ _ E)) as Hk1. destruct v1.
+      * eapply IHds; [exact Hk1|exact H].
+      * inversion H; subst. exact Hk1.
+      * eapply IHds; [exact Hk1|exact H].
+      * inversion H; subst. exact Hk1.
+Qed.
+
+Lemma exists_read_stamp w n : exists_b w n = true -> stamp_eqb (read_stamp w n) SMissing = false.
+Proof. unfold exists_b, read_stamp. destruct (fs_get (fs w) n); [reflexivity|discriminate]. Qed.
+
+Lemma is_dirty_DSTEP : forall fuel runid w c f mx seen v w' c' evs,
+  is_dirty fuel runid w c f mx seen = Ret (v, w', c', evs) -> DSTEP w w'.
+Proof.
+  induction fuel as [|fuel IH]; intros runid w c f mx seen v w' c' evs H; [discriminate|].
+  cbn [is_dirty] in H.
+  destruct (existsb (Nat.eqb f) seen); [inversion H; subst; apply DSTEP_refl|].
+  set (r := load runid (dbs w) f) in *.
+  destruct (r_failed r); [inversion H; subst; apply DSTEP_refl|].
+  destruct (r_changed r) as [chg|]; [|inversion H; subst; apply DSTEP_refl].
+  destruct (Z.ltb mx chg); [inversion H; subst; apply DSTEP_refl|].
+  destruct (chk_is_checked c runid r f); [inversion H; subst; apply DSTEP_refl|].
+  destruct (r_stamp r) as [old|]; [|inversion H; subst; apply DSTEP_refl].
+  destruct (negb (stamp_eqb old (read_stamp w (r_name r)))).
+  { inversion H; subst. unfold forget_missing.
+    destruct (read_stamp w (r_name r)) eqn:Ers; [|apply DSTEP_refl].
+    destruct (r_gen r); [|apply DSTEP_refl].
+    apply DSTEP_put_row.
+    - cbn [upd_row r_name]. unfold r, load. now rewrite view_row_name.
+    - intros n _ _. apply row_protects_safe. left. reflexivity. }
+  eapply walk_deps_DSTEP; [|apply DSTEP_refl|exact H].
+  intros w1 c1 s v1 w1' c1' evs1 E. eapply IH; exact E.
 Qed.
